@@ -269,6 +269,35 @@ def obligations(tier):
 
     obs.append(Obligation('simulate_sweep', sweep_body, twin=lambda cx: sweep_body(cx, wrong=True), opts={'weight': 8}, desc='Simulator / DensityMatrixSimulator.simulate_sweep over TWO resolvers with symbolic values of one symbol, 4 circuit shapes (unparameterized prefix + parameterized suffix with SWAP / ISWAP / CNOT on entangled qubits), split on/off, two basis states: every sweep point equals the ordered product of the documented matrices at its own parameter value'))
 
+    # ---- zero-qubit operations: a global phase operation multiplies the reported state vector -------------------------
+    def gphase_body(cx, wrong=False):
+        q = cirq.LineQubit.range(2)
+        t = cx.real('t', -BOX, BOX)
+        u = cx.real('u', -2.0, 2.0)
+        where = cx.choose('where', 3)
+        ops = [cirq.X(q[0]) ** t, cirq.CNOT(q[0], q[1])]
+        ops.insert(where, cirq.global_phase_operation(D.ph(u)))
+        circuit = cirq.Circuit(ops)
+        psi = basis_tensor(2, 0)
+        psi = EM.apply_matrix_to_axes(D.X(t), psi, [0])
+        psi = EM.apply_matrix_to_axes(D.CX(1.0), psi, [0, 1])
+        exp = psi.reshape(-1) * (D.ph(u) if not wrong else D.ph(u + 1))
+        mode = cx.choose('entry', 5)
+        split = bool(cx.choose('split', 2))
+        if mode == 0:
+            got = cirq.Simulator(dtype=np.complex128, split_untangled_states=split).simulate(circuit, qubit_order=q).final_state_vector
+        elif mode == 1:
+            got = [s_.state_vector(copy=True) for s_ in cirq.Simulator(dtype=np.complex128, split_untangled_states=split).simulate_moment_steps(circuit, qubit_order=q)][-1]
+        elif mode == 2:
+            got = circuit.final_state_vector(qubit_order=q, dtype=np.complex128)
+        elif mode == 3:
+            got = cirq.final_state_vector(circuit, qubit_order=q, dtype=np.complex128)
+        else:
+            got = np.asarray(circuit.unitary(qubit_order=q), dtype=object)[:, 0]
+        cx.close(got, exp, label=f'global phase operation at position {where}: entry point {mode} split={split} reports exp(i pi u) * state')
+
+    obs.append(Obligation('simulate.global_phase_op', gphase_body, twin=lambda cx: gphase_body(cx, wrong=True), opts={'weight': 4}, desc='Circuit(X**t, CNOT) with cirq.global_phase_operation(exp(i pi u)) inserted at every position, symbolic t and u: Simulator.simulate / simulate_moment_steps (split on/off), Circuit.final_state_vector, cirq.final_state_vector and column 0 of Circuit.unitary all carry the phase exactly'))
+
     # ---- ProductState initial states: expressed in the SIMULATION's qubit order ---------------------------------------
     KETS = [('KET_ZERO', [1, 0]), ('KET_ONE', [0, 1]), ('KET_PLUS', [R2, R2]), ('KET_MINUS', [R2, -R2]), ('KET_IMAG', [R2, 1j * R2]), ('KET_MINUS_IMAG', [R2, -1j * R2])]
 
